@@ -4,6 +4,29 @@ from ..symx import SymExec, Opaque
 HYD = "wntr/sim/hydraulics.py"
 
 
+def final_stores_sym(repo, fn=None):
+    """like final_stores but the values are sympy expressions (Opaque leaves become symbols named by their source text)."""
+    fn = fn or repo.func(HYD, "store_results_in_network")
+    ex = SymExec()
+    outs = ex.run(fn)
+    rows = []
+    for o in outs:
+        conds = dict(o.conds)
+        per = {}
+        for e in o.events:
+            if e[0] != "store":
+                continue
+            loops = e[4] if len(e) > 4 else ()
+            ctx = loops[-1] if loops else ""
+            try:
+                per.setdefault(ctx, {})[e[1]] = ex.S(e[2])
+            except Exception:
+                per.setdefault(ctx, {})[e[1]] = None
+        for ctx, finals in per.items():
+            rows.append((ctx, conds, finals))
+    return fn, rows, ex
+
+
 def final_stores(repo, fn=None):
     """path-sensitive summary of store_results_in_network: for every enumerated path and every loop context the LAST value stored
     to each attribute.  -> [(ctx, conds: dict text->bool, finals: dict target->value text or number)]"""
